@@ -25,7 +25,9 @@ TRUSTED_BASE_COMMON = [
     "no Axiom/Parameter/Admitted in /verif/coq (grep-checked on every run); Print Assumptions output recorded per theorem",
     "coqchk -o (thorough tier) lists the axioms of every LOADED library: files using Psatz/Lra load Coq.Reals and with it "
     "Coq.Logic.FunctionalExtensionality.functional_extensionality_dep, Coq.Reals.ClassicalDedekindReals.sig_not_dec and sig_forall_dec; "
-    "no property theorem depends on them (Print Assumptions: closed under the global context); any axiom outside Coq.* fails the check",
+    "no property theorem depends on them (Print Assumptions: closed under the global context) EXCEPT the theorems of Props/C17Slerp.v, which are "
+    "statements about real numbers and depend on exactly those three plus Classical_Prop.classic (declared per file in allowed_axioms and "
+    "checked against Print Assumptions on every run); any axiom outside Coq.* fails the check",
     "hand-written models in coq/theories/Model tied to /repo by the in-Coq correspondence of this run (harness/props + harness/lib/core.py)",
     "exact float->Q encoding (fractions.Fraction) of implementation inputs/outputs; CPython, numpy, shapely, pyquaternion as executed",
 ]
@@ -433,6 +435,7 @@ def run_check(prop, tier, seed):
             thms += t_
             examples += e_
         pa = None
+        pa_file = {}
         if ok_props and pfiles:
             pa = []
             for f in pfiles:
@@ -443,6 +446,8 @@ def run_check(prop, tier, seed):
                     log_p += "\n" + pa_out
                     break
                 pa += pa_f
+                for n_, _ in pa_f:
+                    pa_file[n_] = f
     if not ok_props:
         m = re.search(r'File "([^"]+)", line (\d+).*?\n(Error:.*?)(?:\n\n|\Z)', log_p, flags=re.S)
         broken.append({"kind": "proof", "file": m.group(1) if m else prop.props_file, "line": int(m.group(2)) if m else None,
@@ -456,11 +461,16 @@ def run_check(prop, tier, seed):
         missing = [t for t in thms if t not in [n for n, _ in pa]]
         if missing:
             broken.append({"kind": "proof", "error": "theorems without Print Assumptions: " + ", ".join(missing)})
-        allowed = getattr(prop, "allowed_axioms", [])
+        # allowed_axioms: {props file: [axiom names]} -- standard-library axioms a file is DECLARED to rest on (named in its header, in
+        # DESIGN.md section 6 and in the evidence); every other file must be closed under the global context
+        allowed_by_file = getattr(prop, "allowed_axioms", {}) or {}
         for n, txt in axioms.items():
+            allowed = allowed_by_file.get(pa_file.get(n), []) if isinstance(allowed_by_file, dict) else list(allowed_by_file)
             for line in txt.split("\n")[1:]:
+                if not line or line[0].isspace():
+                    continue          # continuation of the previous axiom's type
                 nm = line.strip().split(" ")[0]
-                if nm and not line.startswith(" " * 4) and nm not in allowed and ":" in line:
+                if nm not in allowed:
                     broken.append({"kind": "axiom", "theorem": n, "axiom": line.strip()})
     # thorough tier: independent re-check of the compiled property file and everything it depends on
     if tier == "thorough" and ok_props and pfiles:
@@ -506,14 +516,27 @@ def run_check(prop, tier, seed):
         st["cases"] = len(cases)
         n_eval += len(cases)
         for k, o in zip(cases, obs):
-            if c.nontrivial(k, o):
+            if isinstance(o, dict) and "__harness_exception__" in o:
+                continue       # the driver itself raised on this case (reported above as a broken correspondence)
+            try:
+                nt = c.nontrivial(k, o)
+            except Exception:  # noqa: BLE001 -- a statistic must not take the check down
+                nt = False
+            if nt:
                 nontrivial.add(c.name + canon(k))
                 st["nontrivial"] += 1
         if hasattr(c, "distribution"):
-            st["distribution"] = c.distribution(cases, obs)
+            try:
+                st["distribution"] = c.distribution([k for k, o in zip(cases, obs) if not (isinstance(o, dict) and "__harness_exception__" in o)],
+                                                    [o for o in obs if not (isinstance(o, dict) and "__harness_exception__" in o)])
+            except Exception as e:  # noqa: BLE001
+                st["distribution"] = {"error": f"{type(e).__name__}: {e}"}
         if cases:
             for i in sorted({0, len(cases) // 2, len(cases) - 1}):
-                samples.append({"correspondence": c.name, **c.describe(cases[i], obs[i])})
+                try:
+                    samples.append({"correspondence": c.name, **c.describe(cases[i], obs[i])})
+                except Exception:  # noqa: BLE001
+                    pass
         # oracle on every implementation output
         _t = time.time()
         for k, o in zip(cases, obs):
